@@ -70,27 +70,43 @@ func swScore(x float64) string {
 	return "f" + strconv.FormatFloat(x, 'g', 17, 64)
 }
 
-func opSW(a []string) (res string) {
+func opSW(a []string) string {
 	v := swProbe()
+	// argument decoding happens outside the recover below: a malformed line is a harness error
+	// (`panic:harness: ...` from the framework), never a library panic
+	mode := a[0]
+	den := float64(atoi(a[1]))
+	var match, mismatch, gopen, gext float64
+	if mode == "mm" {
+		match, mismatch = float64(atoi(a[2]))/den, float64(atoi(a[3]))/den
+	}
+	if a[4] != "d" {
+		gopen = float64(atoi(a[4])) / den
+	}
+	if a[5] != "d" {
+		gext = float64(atoi(a[5])) / den
+	}
+	in1, in2 := swSeq(a[6]), swSeq(a[7])
+	return swRun(v, mode, den, match, mismatch, a[4] != "d", gopen, a[5] != "d", gext, in1, in2)
+}
+
+func swRun(v int, mode string, den, match, mismatch float64, setOpen bool, gopen float64, setExt bool, gext float64, in1, in2 string) (res string) {
 	defer func() {
 		if r := recover(); r != nil {
 			res = fmt.Sprintf("panic v=%d", v)
 		}
 	}()
-	mode := a[0]
-	den := float64(atoi(a[1]))
-	in1, in2 := swSeq(a[6]), swSeq(a[7])
 	seq1 := align.NewSequence("s1", []uint8(in1), "c1")
 	seq2 := align.NewSequence("s2", []uint8(in2), "c2")
 	al := align.NewPwAligner(seq1, seq2, align.ALIGN_ALGO_SW)
-	if a[4] != "d" {
-		al.SetGapOpenScore(float64(atoi(a[4])) / den)
+	if setOpen {
+		al.SetGapOpenScore(gopen)
 	}
-	if a[5] != "d" {
-		al.SetGapExtendScore(float64(atoi(a[5])) / den)
+	if setExt {
+		al.SetGapExtendScore(gext)
 	}
 	if mode == "mm" {
-		al.SetScore(float64(atoi(a[2]))/den, float64(atoi(a[3]))/den)
+		al.SetScore(match, mismatch)
 	}
 	res0, err := al.Alignment()
 	if err != nil {
